@@ -111,6 +111,44 @@ def extract_prophyc_sizes():
     return sizes, disc, enum, kinds
 
 
+def extract_precedence(rel, cls_name):
+    tree = _parse(rel)
+    for node in tree.body:
+        if isinstance(node, ast.ClassDef) and node.name == cls_name:
+            prec, literals = None, None
+            for st in node.body:
+                if isinstance(st, ast.Assign) and isinstance(st.targets[0], ast.Name):
+                    if st.targets[0].id == 'precedence':
+                        prec = [(row.elts[0].value, [e.value for e in row.elts[1:]]) for row in st.value.elts]
+                    if st.targets[0].id == 'literals':
+                        literals = [e.value for e in st.value.elts]
+            if prec is None or literals is None:
+                raise T1Error('precedence / literals not found in %s class %s' % (rel, cls_name))
+            return prec, literals
+    raise T1Error('class %s not found in %s' % (cls_name, rel))
+
+
+def extract_operator_semantics(rel, func_names):
+    """which Python operator each branch `op == '<sym>'` of the binop action applies"""
+    tree = _parse(rel)
+    out = []
+    ops = {ast.Add: 'add', ast.Sub: 'sub', ast.Mult: 'mul', ast.Div: 'truediv', ast.FloorDiv: 'floordiv',
+           ast.LShift: 'lshift', ast.RShift: 'rshift', ast.BitOr: 'or'}
+    for fn in ast.walk(tree):
+        if isinstance(fn, ast.FunctionDef) and fn.name in func_names:
+            for node in ast.walk(fn):
+                if isinstance(node, ast.If) and isinstance(node.test, ast.Compare) and len(node.test.comparators) == 1 \
+                        and isinstance(node.test.comparators[0], ast.Constant) and isinstance(node.test.comparators[0].value, str):
+                    sym = node.test.comparators[0].value
+                    for sub in ast.walk(ast.Module(body=node.body, type_ignores=[])):
+                        if isinstance(sub, ast.BinOp) and type(sub.op) in ops:
+                            out.append((sym, ops[type(sub.op)]))
+                            break
+    if not out:
+        raise T1Error('binop branches not found in %s' % rel)
+    return sorted(set(out))
+
+
 def write_if_changed(name, text):
     os.makedirs(OUT, exist_ok=True)
     path = os.path.join(OUT, name)
@@ -173,7 +211,38 @@ end Prophy.Generated
        kinds['FIXED'], kinds['DYNAMIC'], kinds['UNLIMITED'])
     if write_if_changed('ProphycSizes.lean', text):
         changed.append('ProphycSizes.lean')
-    return {'changed': changed, 'tables': ['PyScalars', 'ProphycSizes']}
+    pp, pl = extract_precedence('prophyc/parsers/prophy.py', 'Parser')
+    cp, cl = extract_precedence('prophyc/calc.py', 'Calc')
+    psem = extract_operator_semantics('prophyc/parsers/prophy.py', ['p_expression_binop'])
+    csem = extract_operator_semantics('prophyc/calc.py', ['p_expression_binop', '_binop'])
+
+    def prec_lean(rows):
+        return '[' + ', '.join('(%s, [%s])' % (lean_str(a), ', '.join(lean_str(t) for t in toks)) for a, toks in rows) + ']'
+
+    def pairs_lean(rows):
+        return '[' + ', '.join('(%s, %s)' % (lean_str(a), lean_str(b)) for a, b in rows) + ']'
+
+    text = '''/- GENERATED by harness/t1_extract.py from prophyc/parsers/prophy.py and prophyc/calc.py.  Do not edit. -/
+namespace Prophy.Generated
+
+/-- yacc `precedence` tables, lowest level first: (associativity, tokens) -/
+def prophyPrecedence : List (String × List String) := %s
+def calcPrecedence : List (String × List String) := %s
+
+/-- lexer `literals` -/
+def prophyLiterals : List String := [%s]
+def calcLiterals : List String := [%s]
+
+/-- (operator symbol, Python operator applied by the binop action) -/
+def prophyBinops : List (String × String) := %s
+def calcBinops : List (String × String) := %s
+
+end Prophy.Generated
+''' % (prec_lean(pp), prec_lean(cp), ', '.join(lean_str(x) for x in pl), ', '.join(lean_str(x) for x in cl),
+       pairs_lean(psem), pairs_lean(csem))
+    if write_if_changed('Precedence.lean', text):
+        changed.append('Precedence.lean')
+    return {'changed': changed, 'tables': ['PyScalars', 'ProphycSizes', 'Precedence']}
 
 
 if __name__ == '__main__':
